@@ -115,10 +115,12 @@ class Unsupported(Exception):
 class PathSum:
     MAX_PATHS = 20000
 
-    def __init__(self, enums=None, inline=None):
+    def __init__(self, enums=None, inline=None, consts=None):
+        self.consts = consts or {}     # const item def path -> body expression (evaluated on use when not an integer)
         # enum path -> list of variant names (from crate facts); Result/Option built in
         self.inline = inline or {}     # callee def path -> body facts: small local helpers evaluated in place
         self._inl_depth = 0
+        self._inl_stack = []           # functions being evaluated in place (a recursive call stays an opaque call)
         self.enums = {RESULT: ["Ok", "Err"], OPTION: ["None", "Some"]}
         if enums:
             self.enums.update(enums)
@@ -277,6 +279,11 @@ class PathSum:
             return [st.with_cond(c + (True,))], [st.with_cond(c + (False,))]
         if k == "Lit":
             lit = ("lit", p["lit"]["t"], self._litv(p["lit"]))
+            if lit[1] == "bool" and not (t[0] == "lit"):
+                y, n = self.split_bool(st, t)
+                if not lit[2]:
+                    y, n = n, y
+                return ([y] if y else []), ([n] if n else [])
             if t == lit:
                 return [st], []
             if t[0] == "lit":
@@ -399,9 +406,20 @@ class PathSum:
                 return [("val", st, ("fn", r["path"]))]
             if dk in ("Fn", "AssocFn"):
                 return [("val", st, ("fn", base_path(r.get("resolved") or r["path"])))]
+            if dk == "ConstParam":
+                return [("val", st, ("constparam", r["path"].split("::")[-1]))]
             if "Const" in dk:
                 if "value" in r:
                     return [("val", st, ("lit", "int", r["value"]))]
+                body = self.consts.get(r["path"])
+                if body is not None and self._inl_depth < 4:
+                    self._inl_depth += 1
+                    try:
+                        outs = [o for o in self.ev(body, St(st.conds, st.effects, dict(st.env))) if o[0] == "val"]
+                    finally:
+                        self._inl_depth -= 1
+                    if len(outs) == 1 and outs[0][1].effects == st.effects:
+                        return [("val", st, outs[0][2])]
                 return [("val", st, ("const", r["path"]))]
             if dk.startswith("Static"):
                 return [("val", st, ("static", r["path"]))]
@@ -772,6 +790,12 @@ class PathSum:
                 out.append(o)
                 continue
             itv = o[2]
+            arr = itv
+            while arr[0] == "call" and arr[1].split("::")[-1] in ("iter", "into_iter") and arr[2]:
+                arr = arr[2][0]
+            if arr[0] == "array" and 0 < len(arr[1]) <= 16:
+                out += self._unrolled_for(e, o[1], arr[1])
+                continue
 
             def body(h, itv=itv):
                 item = ("iter_item", itv, loc(e))
@@ -782,6 +806,27 @@ class PathSum:
                 return outs, [h]
             out += self._loop(e, o[1], body, True)
         return out
+
+    def _unrolled_for(self, e, st, items):
+        """`for x in [a, b, c]` over a literal array: the body is evaluated once per element, in order."""
+        label = e.get("label")
+        cur = [st]
+        res = []
+        for item in items:
+            nxt = []
+            for s in cur:
+                m, _ = self.match_pat(s, item, e["pat"])
+                for ms in m:
+                    for o in self.ev(e["body"], ms):
+                        k = o[0]
+                        if k == "val" or (k == "cont" and (o[3] is None or o[3] == label)):
+                            nxt.append(o[1])
+                        elif k == "brk" and (o[3] is None or o[3] == label):
+                            res.append(("val", o[1], UNIT))
+                        else:
+                            res.append(o)
+            cur = nxt
+        return res + [("val", s, UNIT) for s in cur]
 
     # -- calls
     def apply_closure(self, key, args, st):
@@ -802,11 +847,13 @@ class PathSum:
                 res.append(o)
         return res
 
+    def can_inline(self, callee):
+        return callee in self.inline and callee not in self._inl_stack and self._inl_depth <= 4
+
     def inline_call(self, callee, args, st):
         b = self.inline[callee]
-        if self._inl_depth > 4:
-            raise Unsupported("inline depth")
         self._inl_depth += 1
+        self._inl_stack.append(callee)
         try:
             s = st
             for p, a in zip(b["params"], args):
@@ -823,6 +870,7 @@ class PathSum:
             return res
         finally:
             self._inl_depth -= 1
+            self._inl_stack.pop()
 
     def call_fn_term(self, ft, args, st, site, node):
         if ft[0] == "closure":
@@ -831,6 +879,8 @@ class PathSum:
         if ft[0] == "fn":
             if ft[1] in (OK, ERR, SOME):
                 return [("val", st, ("ctor", ft[1], tuple(args)))]
+            if self.can_inline(ft[1]):
+                return self.inline_call(ft[1], list(args), st)
             s.add_effect(("call", ft[1], tuple(args), site))
             return [("val", s, ("call", ft[1], tuple(args), site))]
         s.add_effect(("apply", ft, tuple(args), site))
@@ -851,7 +901,7 @@ class PathSum:
                 if r is not None:
                     out += r
                     continue
-                if callee in self.inline:
+                if self.can_inline(callee):
                     out += self.inline_call(callee, v, s)
                     continue
                 s = s.fork()
@@ -867,6 +917,8 @@ class PathSum:
     def ev_MethodCall(self, e, st):
         site = loc(e)
         callee = base_path(e.get("resolved") or e.get("callee") or ("?::" + e["name"]))
+        if e["name"] == "parse" and callee.endswith("str::parse") and e.get("gargs"):
+            callee = callee + "::<%s>" % e["gargs"][0]
         cur, ab = self.ev_list([e["recv"]] + e["args"], st)
         out = list(ab)
         for (s, v) in cur:
@@ -874,7 +926,7 @@ class PathSum:
             if r is not None:
                 out += r
                 continue
-            if callee in self.inline:
+            if self.can_inline(callee):
                 out += self.inline_call(callee, v, s)
                 continue
             s = s.fork()
@@ -936,6 +988,19 @@ class PathSum:
                 if sn:
                     for o in apply(v[1], [self.payload(recv, ERR, 0)], sn):
                         out.append(("val", o[1], ("ctor", ERR, (o[2],))) if o[0] == "val" else o)
+                return out
+            if name == "map_or" and len(v) == 3:
+                if sy:
+                    out += apply(v[2], [self.payload(recv, okv, 0)], sy)
+                if sn:
+                    out.append(("val", sn, v[1]))
+                return out
+            if name == "map_or_else" and len(v) == 3:
+                if sy:
+                    out += apply(v[2], [self.payload(recv, okv, 0)], sy)
+                if sn:
+                    args = [] if is_opt else [self.payload(recv, ERR, 0)]
+                    out += apply(v[1], args, sn)
                 return out
             if name == "or_else":
                 if sy:
